@@ -40,8 +40,14 @@ DomainRename(s, d) ==
   ELSE [s EXCEPT !.dom = d,
                  !.spn = [x \in s.ids |-> IF s.lv[x] = "live" /\ x \in s.named /\ s.spn[x] # {} THEN {<<s.name[x], d>>} ELSE @[x]]]
 Delete(s, D) == [s EXCEPT !.lv = [x \in s.ids |-> IF x \in D /\ @[x] = "live" THEN "recycled" ELSE @[x]]]
-Revive(s, x) ==
-  IF s.lv[x] # "recycled" THEN R(s, "ok")
-  ELSE IF x \in s.named /\ Taken(s, s.name[x], x) THEN R(s, "err")
-  ELSE R([s EXCEPT !.lv[x] = "live", !.spn[x] = IF x \in s.named THEN {<<s.name[x], s.dom>>} ELSE @], "ok")
+\* ONE revive over the ids X0: all recycled ones among them or none (a name clash refuses the operation)
+Revive(s, X0) ==
+  LET X == {x \in X0 \cap s.ids : s.lv[x] = "recycled"}
+      clash == \E x \in X \cap s.named :
+                 \/ \E y \in s.named \ X : s.lv[y] = "live" /\ s.name[y] = s.name[x]
+                 \/ \E y \in (X \cap s.named) \ {x} : s.name[y] = s.name[x]
+  IN  IF X = {} THEN R(s, "ok")
+      ELSE IF clash THEN R(s, "err")
+      ELSE R([s EXCEPT !.lv = [x \in s.ids |-> IF x \in X THEN "live" ELSE @[x]],
+                       !.spn = [x \in s.ids |-> IF x \in X \cap s.named THEN {<<s.name[x], s.dom>>} ELSE @[x]]], "ok")
 =============================================================================
